@@ -1255,6 +1255,21 @@ void BSSubIndexTriShape::notifyVerticesDelete(const std::vector<uint16_t>& vertI
 
 	//Remove triangles from segments and re-fit lists
 	segmentation.numPrimitives -= static_cast<uint32_t>(deletedTris.size());
+
+	// Triangles assigned directly to a segment come before its first sub segment.
+	// Remember how many of them remain so the sub segments can be re-fitted behind them.
+	std::vector<uint32_t> directTris(segmentation.segments.size(), 0);
+	for (size_t si = 0; si < segmentation.segments.size(); si++) {
+		auto& segment = segmentation.segments[si];
+		if (segment.subSegments.empty() || segment.subSegments[0].startIndex < segment.startIndex)
+			continue;
+
+		directTris[si] = (segment.subSegments[0].startIndex - segment.startIndex) / 3;
+		for (auto& id : deletedTris)
+			if (directTris[si] > 0 && id >= segment.startIndex / 3 && id < segment.subSegments[0].startIndex / 3)
+				directTris[si]--;
+	}
+
 	for (auto& segment : segmentation.segments) {
 		// Delete primitives
 		for (auto& id : deletedTris)
@@ -1277,7 +1292,7 @@ void BSSubIndexTriShape::notifyVerticesDelete(const std::vector<uint16_t>& vertI
 		size_t j = 0;
 		for (auto& subSegment : segment.subSegments) {
 			if (j == 0)
-				subSegment.startIndex = segment.startIndex;
+				subSegment.startIndex = segment.startIndex + directTris[i] * 3;
 
 			if (j + 1 >= segment.numSubSegments)
 				continue;
